@@ -118,8 +118,10 @@ CHECKS["C07"] = {
     "title": "window U-value and solar factors",
     "outside": ["the 0.77 / 5.7 / 0.20 defaults used downstream are decided under C08, C10 and C11"],
     "harnesses": [
-        {"name": "c07::win_u_mirror", "bound": "every finite f32: Ug,Uf in [0,20], g_n in [0,1], Ff in [0,1], dU in [0,50], user shading factor in [0,1] or absent; glazing/frame present or absent (decoys first in the db)",
-         "kani_args": NOOVF, "cbmc_args": FS, "stubs": FMT + ROUND, "functions": ["WinCons::u_value", "WinCons::g_glwi", "WinCons::g_glshwi", "ConsDb::get_glass", "ConsDb::get_frame", "fround2"]},
+        {"name": "c07::win_u_formula", "bound": "Ug,Uf in {k/4,k<=23}, g_n, Ff in {k/8,k<=8}, dU in {0,10,25,50}", "kani_args": NOOVF, "cbmc_args": FS, "stubs": FMT + ROUND,
+         "functions": ["WinCons::u_value", "WinCons::g_glwi", "WinCons::g_glshwi", "fround2"]},
+        {"name": "c07::win_lookup", "bound": "concrete numbers; glazing / frame present or absent (decoys first in the db), user shading factor present or absent", "kani_args": NOOVF, "cbmc_args": FS, "stubs": FMT + ROUND,
+         "functions": ["WinCons::u_value", "WinCons::g_glwi", "WinCons::g_glshwi", "ConsDb::get_glass", "ConsDb::get_frame"]},
         {"name": "c07::win_u_bounds", "bound": "Ug,Uf in {k/2, k<=12}, Ff in {0,1/4,1/2,3/4,1}, dU in {0,25,50}", "kani_args": NOOVF, "cbmc_args": FS, "stubs": FMT + ROUND,
          "functions": ["WinCons::u_value", "fround2"]},
     ],
@@ -182,12 +184,14 @@ FSH = ["Model::compute_fshobst -> empty map (obstruction factors are inputs; ray
 CHECKS["C11"]["harnesses"] += [
     {"name": "c11p::polygon_area_3", "bound": "3 integer vertices in [-4,4]^2 (any winding), scale factors {1/4,1/2,2,4}", "kani_args": NOOVF, "cbmc_args": FS,
      "functions": ["<Polygon as HasSurface>::area", "<Polygon as HasSurface>::perimeter"]},
-    {"name": "c11p::polygon_area_4", "bound": "4 integer vertices (any winding, self-intersections allowed), same scale factors", "kani_args": NOOVF, "cbmc_args": FS,
+    {"name": "c11p::polygon_area_4", "tier": "thorough", "bound": "4 integer vertices (any winding, self-intersections allowed), scale factor 2", "kani_args": NOOVF, "cbmc_args": FS,
      "functions": ["<Polygon as HasSurface>::area"]},
     {"name": "c11p::polygon_area_5", "tier": "thorough", "bound": "5 integer vertices", "kani_args": NOOVF, "cbmc_args": FS, "functions": ["<Polygon as HasSurface>::area"]},
     {"name": "c11p::space_area_height", "bound": "1 space, 2 floors (second own/foreign), ceiling own roof / given from the other side / none, 0..2 windows; sizes on integer grid", "kani_args": NOOVF, "cbmc_args": FS, "stubs": FMT + ROUND,
      "functions": ["Space::area", "Space::height_net", "Wall::area_net", "WallCons::thickness"]},
-    {"name": "c11p::props_global", "bound": "2 spaces (inside/outside, 3 kinds, multiplier {1,2}, height {2,3,4}), floor + wall of space 1 with 4 boundary kinds each, neighbour none/valid/dangling, side 1..4", "kani_args": NOOVF, "cbmc_args": FS, "stubs": FMT + ROUND + FSH, "timeout_quick": 1200,
+    {"name": "c11p::props_membership", "mem_gb": 40, "bound": "2 spaces (inside/outside each), 1 wall INTERIOR or ADIABATIC, neighbour none/valid/dangling (empty polygon)", "kani_args": NOOVF, "cbmc_args": FS, "stubs": FMT + ROUND + FSH, "timeout_quick": 1200,
+     "functions": ["EnergyProps::from(&Model)"]},
+    {"name": "c11p::props_global", "bound": "1 space (inside/outside, 3 kinds, multiplier {1,2}, height {2,3,4}) and its floor (4 boundary kinds, side 1..4), new/existing building", "kani_args": NOOVF, "cbmc_args": FS, "stubs": FMT + ROUND + FSH, "timeout_quick": 1200,
      "functions": ["EnergyProps::from(&Model)", "Space::area", "Space::height_net", "Wall::u_value", "Wall::area_net"]},
     {"name": "c11p::ventilation_consistency", "bound": "1 space (inside/outside, 3 kinds), floor side 1..4, building ventilation in {10..13} l/s", "kani_args": NOOVF, "cbmc_args": FS, "stubs": FMT + ROUND + FSH, "timeout_quick": 1200,
      "functions": ["EnergyProps::from(&Model)", "Model::global_ventilation_rate"]},
@@ -195,12 +199,14 @@ CHECKS["C11"]["harnesses"] += [
 CHECKS["C11"]["outside"] = ["scale factors that are not powers of two", "models with more than 2 spaces / 2 walls", "off-grid geometry", "net volume with a ceiling element (net height is decided separately in space_area_height)"]
 
 CHECKS["C17"]["harnesses"] += [
-    {"name": "c17::sched::week_to_days", "bound": "weekly schedule of two runs c + (7-c), c in 0..7", "kani_args": NOOVF, "cbmc_args": FS, "functions": ["ScheduleWeek::to_day_sch"]},
+    {"name": "c17::sched::week_to_days", "tier": "thorough", "timeout_thorough": 2700, "bound": "weekly schedules of two runs (3+4, 0+7), daily ids symbolic", "kani_args": NOOVF, "cbmc_args": FS, "functions": ["ScheduleWeek::to_day_sch"]},
     {"name": "c17::sched::end_dates_partition", "bound": "every increasing list of 3 end dates ending on 31 Dec", "functions": ["convert::from_ctehexml::day_of_year"]},
-    {"name": "c17::sched::year_as_days", "bound": "2 periods of 0..4 days, two weekly schedules of two runs (c, 7-c), second weekly schedule present or missing", "kani_args": NOOVF, "cbmc_args": FS, "stubs": FMT, "timeout_quick": 1200,
+    {"name": "c17::sched::year_as_days", "tier": "thorough", "timeout_thorough": 2700, "bound": "3 periods of (3,2,4) days over weekly schedules with runs (2+5) and (5+2): lengths concrete, the daily schedules the runs refer to symbolic", "kani_args": NOOVF, "cbmc_args": FS, "stubs": FMT, "timeout_quick": 900,
+     "functions": ["SchedulesDb::get_year_as_day_sch", "ScheduleWeek::to_day_sch"]},
+    {"name": "c17::sched::year_as_days_b", "tier": "thorough", "timeout_thorough": 2700, "bound": "periods (8,0,2) with runs (1+6) and (1,3,5) with runs (3+4, 0+7) and a missing weekly schedule for the third period", "kani_args": NOOVF, "cbmc_args": FS, "stubs": FMT, "timeout_quick": 900,
      "functions": ["SchedulesDb::get_year_as_day_sch", "ScheduleWeek::to_day_sch"]},
 ]
-CHECKS["C17"]["outside"] = ["schedules_from_bdl itself (string-keyed IdMaps): only its date arithmetic is decided", "yearly occupied time and mean internal load (EnergyProps::from over schedule expansions: not tractable within the cap)", "periods longer than 4 days, more than 2 periods"]
+CHECKS["C17"]["outside"] = ["schedules_from_bdl itself (string-keyed IdMaps): only its date arithmetic is decided", "schedule expansion in the quick tier: SchedulesDb::get_year_as_day_sch / ScheduleWeek::to_day_sch (flat_map over vec![id; n]) need 540 s of symbolic execution for ONE weekly schedule with concrete run lengths; registered in the thorough tier only", "yearly occupied time and mean internal load", "symbolic period and run lengths (vectors of symbolic length exhaust the solver): the lengths are the concrete ones listed per harness"]
 
 CHECKS["C14"] = {
     "title": "indicator computation is total",
